@@ -132,6 +132,8 @@ func c11Retries(r *hk.Run, rng *hk.Rand, o *c11Origin, n int) {
 
 // (b5) parallel downloads: HEAD + three ranged GETs for ONE named URL
 func c11Downloads(r *hk.Run, rng *hk.Rand, o *c11Origin, n int) {
+	c11AllowFault = false
+	defer func() { c11AllowFault = true }()
 	tmpRoot := filepath.Join(r.OutDir, "pdtmp")
 	os.MkdirAll(tmpRoot, 0o755)
 	defer os.RemoveAll(tmpRoot)
